@@ -85,6 +85,11 @@ func refMedian(ts []time.Time, child uint64) time.Time {
 	return l.Add(r.Sub(l) / 2)
 }
 
+// unknownAlgUC: unlock conditions with one key of an algorithm the validator does not know.
+func unknownAlgUC() types.UnlockConditions {
+	return types.UnlockConditions{PublicKeys: []types.UnlockKey{{Algorithm: types.NewSpecifier("c08-unknown"), Key: []byte{1, 2, 3}}}, SignaturesRequired: 1}
+}
+
 func ucLock(k *chain.Keys, T uint64) types.UnlockConditions {
 	uc := k.StdUC(0)
 	uc.Timelock = T
@@ -124,6 +129,7 @@ func alloc(n chain.NetSpec) func(k *chain.Keys) chain.GenesisAlloc {
 		for i, s := range farInstants {
 			g.SC = append(g.SC, types.SiacoinOutput{Value: types.Siacoins(uint32(120 + i)), Address: types.PolicyAfter(time.Unix(s, 0)).Address()})
 		}
+		g.SC = append(g.SC, types.SiacoinOutput{Value: types.Siacoins(77), Address: unknownAlgUC().UnlockHash()})
 		for p := uint64(1); p <= maxH; p++ {
 			m := refMedian(ts, p)
 			for d := -1; d <= 1; d++ {
@@ -386,6 +392,19 @@ func (r *runner) locks() {
 						Signatures: []types.TransactionSignature{{ParentID: types.Hash256(p.ID), PublicKeyIndex: 0, Timelock: T, CoveredFields: types.CoveredFields{WholeTransaction: true}}}}
 					w.FillV1Signatures(&t)
 					r.probe(w, "v1 signature timelock", 0, int64(T), chain.Use{Name: "sig-lock", V1: &t, SuppSC: []types.SiacoinElement{p}}, h >= T)
+					// the same lock on a signature over an explicit field list (another hashing path)
+					cf := types.CoveredFields{SiacoinInputs: []uint64{0}, SiacoinOutputs: []uint64{0}}
+					tp := types.Transaction{SiacoinInputs: t.SiacoinInputs, SiacoinOutputs: t.SiacoinOutputs,
+						Signatures: []types.TransactionSignature{{ParentID: types.Hash256(p.ID), PublicKeyIndex: 0, Timelock: T, CoveredFields: cf}}}
+					sg := k.Priv[0].SignHash(w.CS.PartialSigHash(tp, cf))
+					tp.Signatures[0].Signature = sg[:]
+					r.probe(w, "v1 signature timelock (partial covered fields)", 0, int64(T), chain.Use{Name: "sig-lock-partial", V1: &tp, SuppSC: []types.SiacoinElement{p}}, h >= T)
+				}
+				// and on a signature for a key of an unrecognised algorithm (valid by default, the lock still applies)
+				if p, ok := findSC(w, unknownAlgUC().UnlockHash(), 0); ok {
+					tu := types.Transaction{SiacoinInputs: []types.SiacoinInput{{ParentID: p.ID, UnlockConditions: unknownAlgUC()}}, SiacoinOutputs: []types.SiacoinOutput{{Value: p.SiacoinOutput.Value, Address: k.Addr(chain.AddrV1)}},
+						Signatures: []types.TransactionSignature{{ParentID: types.Hash256(p.ID), PublicKeyIndex: 0, Timelock: T, CoveredFields: types.CoveredFields{WholeTransaction: true}, Signature: []byte("any bytes")}}}
+					r.probe(w, "v1 signature timelock (unrecognised key algorithm)", 0, int64(T), chain.Use{Name: "sig-lock-unknown", V1: &tu, SuppSC: []types.SiacoinElement{p}}, h >= T)
 				}
 			}
 		}
@@ -727,7 +746,7 @@ func run(c *vf.Ctx) {
 	})
 	need := []string{"accept_at_or_after_bound", "reject_before_bound"}
 	for _, rule := range []string{"v1 transaction before v2 require height", "v2 transaction from v2 allow height", "v1 unlock-conditions timelock", "v2 legacy unlock-conditions policy timelock (parent height)",
-		"v2 above(h) policy (parent height)", "v1 signature timelock", "v1 unlock-conditions timelock (siafund input)", "v1 unlock-conditions timelock (contract revision)",
+		"v2 above(h) policy (parent height)", "v1 signature timelock", "v1 signature timelock (partial covered fields)", "v1 signature timelock (unrecognised key algorithm)", "v1 unlock-conditions timelock (siafund input)", "v1 unlock-conditions timelock (contract revision)",
 		"v2 legacy unlock-conditions policy timelock on a siafund input (parent height)", "v2 above(h) policy on a siafund input (parent height)", "v2 after(t) policy on a siafund input (median of last 11 timestamps, strict)", "v2 after(t) policy, whole-second lock next to a half-second median", "v2 after(t) policy (median of last 11 timestamps, strict)", "v1 formation window start >= height", "v2 formation proof height >= height",
 		"delayed output maturity (v1 spender)", "delayed output maturity (v2 spender)", "v1 revision not after window start", "v1 proof not before the window-start block exists",
 		"v2 revision not after proof height", "v2 proof only once the block at proof height is an ancestor", "v2 expiration only after expiration height", "v2 renewal new contract proof height >= height"} {
